@@ -122,24 +122,22 @@ class SPARQLQueryHelper(object):
         # must call bind_params _before_ bind_messages
         if param_map is None:
             param_map = self.param_bind_map
-        var_replacers = {}
         bound_messages = set()
+
+        def _bound_value(match):
+            # The value is inserted as it is (a backslash in it is not a regex group reference), in one pass
+            # over the template (text that a value brings along is not a placeholder).
+            variable = match.group(2)
+            if variable not in param_map.keys():
+                return match.group(0)
+            return str(param_map[variable])
+
         for m in self.unbound_messages:
             m_val = str(m.value)
-            finds = self.find_msg_subs.findall(m_val)
-            if len(finds) < 1:
+            if self.find_msg_subs.search(m_val) is None:
                 bound_messages.add(m)
                 continue
-            for f in finds:
-                variable = f[1]
-                if variable not in param_map.keys():
-                    continue
-                try:
-                    replacer = var_replacers[variable]
-                except KeyError:
-                    replacer = re.compile(r"{[\$\?]" + variable + r"}", flags=re.M)
-                    var_replacers[variable] = replacer
-                m_val = replacer.sub(str(param_map[variable]), m_val, 1)
+            m_val = self.find_msg_subs.sub(_bound_value, m_val)
             bound_messages.add(rdflib.Literal(m_val, lang=m.language, datatype=m.datatype))
         self.bound_messages = bound_messages
 
